@@ -16,7 +16,7 @@ def setup():
             try:
                 core.sany(w, m)
             except core.MachineryError as ex:
-                print(str(ex)[:2000], file=sys.stderr)
+                print(str(ex)[:300] + ' ... ' + ' '.join(str(ex)[-1200:].split()), file=sys.stderr)
                 bad += 1
         print('setup: %d modules parsed, %d failed' % (len(mods), bad))
         return 2 if bad else 0
@@ -42,7 +42,13 @@ def _tf(prop, tier, seed, replay=None):
     return run_transform.run(prop, tier, seed, replay)
 
 
+def _trn(prop, tier, seed, replay=None):
+    from . import run_transitions
+    return run_transitions.run(prop, tier, seed, replay)
+
+
 CHECKS = {
+    'C10': _trn,
     'C11': _tf, 'C12': _tf, 'C05': _tf, 'C13': _tf, 'C14': _tf, 'C15': _tf, 'C04': _tf,
     'C20': _labels,
     'C19': _nav,
